@@ -202,6 +202,8 @@ def search_from(draw, m: SidModel, t: str, fields: Dict[str, str], allow_gt: boo
                 v = draw(st.sampled_from(aliases))
             else:
                 k, v = "nokey", "x"
+            if not allow_gt:
+                v = ",".join("*" if x == ">" else x for x in v.split(","))
             filters.append(f"{k}={opt}{_qsafe(v) if ',' not in v else ','.join(_qsafe(x) for x in v.split(','))}")
             labels.append("filter:" + kind + ("/opt" if opt else ""))
         if filters:
@@ -215,3 +217,74 @@ def search(draw, m: SidModel, types=None, **kw):
     r = draw(search_from(m, t, f, **kw))
     r["from"] = t
     return r
+
+
+# ----------------------------------------------------------------------------------------------
+# Universes: sets of concrete entities sharing prefixes
+# ----------------------------------------------------------------------------------------------
+
+def entity_value(m: SidModel, t: str, k: str, names=None):
+    """Concrete value for an entity: dense digits, small name pool, alias names excluded."""
+    spec = m.specs[(t, k)]
+    aliases = set(m.extension_alias)
+    if spec.free:
+        return st.sampled_from(names or SMALL_NAMES)
+    strat = concrete_value(spec, wide=False, digits_dense=True)
+    if any(l in aliases for l in spec.literals):
+        strat = strat.filter(lambda v: v not in aliases)
+    return strat
+
+
+@st.composite
+def universe(draw, m: SidModel, types: Optional[List[str]] = None, min_size: int = 3, max_size: int = 20, names=None):
+    """List of distinct (type, fields) concrete entities; later ones often share a prefix with earlier ones."""
+    types = types or m.types
+    n = draw(st.integers(min_size, max_size))
+    ents: List = []
+    seen = set()
+    for _ in range(n):
+        if ents and draw(st.integers(0, 9)) < 7:
+            t0, f0 = ents[draw(st.integers(0, len(ents) - 1))]
+            # same basetype, any depth; keep a common prefix with the chosen entity
+            cands = [x for x in types if m.basetype(x) == m.basetype(t0)] or [t0]
+            t = draw(st.sampled_from(cands))
+            keys = m.keys(t)
+            keep = draw(st.integers(0, len(keys)))
+            f = {}
+            for i, k in enumerate(keys):
+                if i < keep and k in f0 and m.accepts_value(t, k, f0[k]):
+                    f[k] = f0[k]
+                else:
+                    f[k] = draw(entity_value(m, t, k, names))
+        else:
+            t = draw(st.sampled_from(types))
+            f = {k: draw(entity_value(m, t, k, names)) for k in m.keys(t)}
+        key = (t, tuple(f.items()))
+        if key not in seen:
+            seen.add(key)
+            ents.append((t, f))
+    return ents
+
+
+def ancestors(m: SidModel, t: str, f: Dict[str, str]):
+    """(type, fields) of every proper '/'-prefix that has a type (first type fitting the prefix fields)."""
+    keys = m.keys(t)
+    out = []
+    for i in range(1, len(keys)):
+        pf = {k: f[k] for k in keys[:i]}
+        ts = m.types_for_fields(pf)
+        if ts:
+            out.append((ts[0], pf))
+    return out
+
+
+def closure(m: SidModel, ents):
+    """Entities plus all their typed ancestors, without duplicates (by string)."""
+    out, seen = [], set()
+    for t, f in ents:
+        for tt, ff in ancestors(m, t, f) + [(t, f)]:
+            s = m.render(tt, ff)
+            if s not in seen:
+                seen.add(s)
+                out.append((tt, ff))
+    return out
